@@ -9,16 +9,16 @@ def reverse_slots(ck, tier, seed):
     checked by TLC on every sequence of bases and marks, replayed on the real routine (hook event 8) and validated."""
     tmp = vlib.tmpdir("C03rev")
     q = tier == "quick"
-    r = vlib.tlc("ReverseSlots.tla", "ReverseSlots.cfg", timeout=3000, coverage=False)
+    r = vlib.tlc("ReverseSlots.tla", "ReverseSlots.cfg" if q else "ReverseSlots_thorough.cfg", timeout=3000, coverage=False)
     if r.violation:
         ck.violation("TLC: %s violated in ReverseSlots" % r.violation, {"why": "ReverseSlots model", "trace": vlib.tlc_error_trace(r.out)})
         return
-    ck.add_tlc("ReverseSlots(all sequences of bases and marks up to 8)", r)
+    ck.add_tlc("ReverseSlots(all sequences of bases and marks up to %d)" % (8 if q else 12), r)
     rn = vlib.tlc("ReverseSlots.tla", "ReverseSlots_neg.cfg", timeout=900, coverage=False)
     if rn.violation != "Correct":
         raise vlib.Broken("negative control ReverseSlots_neg (tail not updated) not refuted: %r" % rn.violation)
     out = os.path.join(tmp, "cases.ndjson")
-    re = vlib.tlc("ReverseSlots.tla", "ReverseSlots_emit.cfg", out_file=out, timeout=3000, coverage=False)
+    re = vlib.tlc("ReverseSlots.tla", "ReverseSlots_emit.cfg" if q else "ReverseSlots_emit_thorough.cfg", out_file=out, timeout=3000, coverage=False)
     if re.violation or not re.emitted:
         raise vlib.Broken("ReverseSlots emitted no sequences (%r)" % re.violation)
     # the font: glyph 'f' has bidi class 16, the single rule changes nothing; left-to-right
